@@ -154,7 +154,7 @@ impl<S: WebSocket, T: TimestampProvider> Task<S, T> {
                 (true, Ok(()))
             }
         };
-        self.wind_down(should_drain_frame_rx, tx_msg_rx, dropped_flows_rx)
+        self.wind_down(should_drain_frame_rx, res.is_ok(), tx_msg_rx, dropped_flows_rx)
             .await;
         res
     }
@@ -293,6 +293,7 @@ impl<S: WebSocket, T: TimestampProvider> Task<S, T> {
     async fn wind_down(
         &self,
         should_drain_msg_rx: bool,
+        graceful: bool,
         mut tx_msg_rx: mpsc::UnboundedReceiver<Message>,
         mut dropped_flows_rx: mpsc::UnboundedReceiver<u32>,
     ) {
@@ -334,13 +335,27 @@ impl<S: WebSocket, T: TimestampProvider> Task<S, T> {
                 // ws.flush().await.ok();
             }
         }
-        // This will flush the remaining frames already queued for sending as well
-        poll_fn(|cx| self.ws.lock().poll_close_unpin(cx)).await.ok();
-        // The above line only closes the `Sink`. Before we terminate connections,
-        // we dispatch the remaining frames in the `Source` to our streams.
-        while let Some(Ok(msg)) = poll_fn(|cx| self.ws.lock().poll_next_unpin(cx)).await {
-            debug!("processing remaining message after closure {msg:?}");
-            self.process_message(msg, true).await.ok();
+        if graceful {
+            // This will flush the remaining frames already queued for sending as well
+            poll_fn(|cx| self.ws.lock().poll_close_unpin(cx)).await.ok();
+            // The above line only closes the `Sink`. Before we terminate connections,
+            // we dispatch the remaining frames in the `Source` to our streams.
+            while let Some(Ok(msg)) = poll_fn(|cx| self.ws.lock().poll_next_unpin(cx)).await {
+                debug!("processing remaining message after closure {msg:?}");
+                self.process_message(msg, true).await.ok();
+            }
+        } else {
+            // We are here because of an error (transport failure, keepalive timeout or
+            // an invalid frame). The peer may never answer again, so we must not wait for
+            // it: try to close the `Sink` and only dispatch what the `Source` already holds.
+            poll_fn(|cx| self.ws.lock().poll_close_unpin(cx))
+                .now_or_never();
+            while let Some(Some(Ok(msg))) =
+                poll_fn(|cx| self.ws.lock().poll_next_unpin(cx)).now_or_never()
+            {
+                debug!("processing remaining message after failure {msg:?}");
+                self.process_message(msg, true).await.ok();
+            }
         }
         // Finally, we send EOF to all established streams.
         self.flows.write().drain().for_each(|(flow_id, slot)| {
